@@ -16,6 +16,7 @@ CONSTANTS
   PfMax = 1
   Eager = FALSE
   Journaling = FALSE
+  SlowStop = FALSE
 INVARIANT ConfAtEnd
 POSTCONDITION TraceAccepted
 CHECK_DEADLOCK FALSE
